@@ -28,6 +28,7 @@ type OblInst struct {
 	TimeMs int64
 	Seq    int
 	Where  string
+	Static bool // decided by the generator itself (frame / purity scans), no solver query
 }
 
 // FnRun is the verification of one function (or one lemma).
@@ -129,6 +130,19 @@ func (r *FnRun) oblige(kind, desc string, goal Term, st *State) {
 	r.obls = append(r.obls, o)
 	fmt.Fprintf(&r.body, "(push 1)\n(assert (not %s))\n(check-sat)\n(pop 1)\n", goal.S)
 	r.assume(goal)
+}
+
+// staticObl records an obligation that the generator decides by a syntactic
+// scan of the SSA (no solver involved).
+func (r *FnRun) staticObl(kind, desc string, ok bool, why string, st *State) {
+	name := fmt.Sprintf("%s:%s:%s", shortName(r.name), kind, desc)
+	o := &OblInst{Name: name, Kind: kind, Desc: desc, Ctx: st.ctx, Goal: Term{why, SBool}, Path: why, Seq: len(r.obls), Static: true, Solver: "ssa-scan"}
+	if ok {
+		o.Result = "unsat"
+	} else {
+		o.Result = "sat"
+	}
+	r.obls = append(r.obls, o)
 }
 
 // cover emits a satisfiability check of the current path (vacuity guard).
@@ -247,16 +261,24 @@ func (r *FnRun) solve(workDir string, quickMs int, allSolvers bool) {
 	out, _ := runSolver(solvers[0], file, quickMs, quickMs*len(r.obls)+60000)
 	words := firstWords(out)
 	el := time.Since(t0).Milliseconds()
-	for i, o := range r.obls {
-		if i < len(words) {
-			o.Result = words[i]
+	wi := 0
+	for _, o := range r.obls {
+		if o.Static {
+			continue
+		}
+		if wi < len(words) {
+			o.Result = words[wi]
 		} else {
 			o.Result = "unknown"
 		}
+		wi++
 		o.Solver = solvers[0].name
 		o.TimeMs = el / int64(len(r.obls))
 	}
 	for _, o := range r.obls {
+		if o.Static {
+			continue
+		}
 		want := "unsat"
 		if o.Cover {
 			// a cover is fine unless the path is provably infeasible
